@@ -20,7 +20,11 @@ def sizes(max_dim=256, min_dim=64, odd8=True):
                                 if min_dim <= d <= max_dim] or [min_dim])
         off = st.sampled_from([d for d in (66, 70, 74, 90, 100, 118, 126, 130, 134, 150, 186, 194, 202, 250, 258, 262)
                                if min_dim <= d <= max_dim] or [min_dim])
-        return st.one_of(base, nice, off) if odd8 else nice
+        # every residue of the dimension modulo the 64-pixel superblock in steps of 8 (the width of the last SB column / row selects
+        # different kernel paths: 8, 16, 24, ... 56) and +2 / +4 / +6 offsets inside an 8-pixel unit
+        resid = st.builds(lambda k, r, o: 64 * k + r + o, st.integers(1, max(1, max_dim // 64)), st.sampled_from([8, 16, 24, 32, 40, 48, 56]), st.sampled_from([0, 0, 0, 2, 4, 6])) \
+            .filter(lambda v: min_dim <= v <= max_dim)
+        return st.one_of(base, nice, off, resid, resid) if odd8 else nice
     return st.tuples(dim(), dim())
 
 
